@@ -58,7 +58,7 @@ class Z3Meter:
         z3.Solver.check = check
 
 
-def explore(cond, budget, per_path_timeout=None, max_samples=3, seed=0):
+def explore(cond, budget, per_path_timeout=None, max_samples=3, seed=0, max_cex=40):
     core = _import_crosshair()
     from crosshair.core import (AnalysisOptionSet, DEFAULT_OPTIONS, Patched, COMPOSITE_TRACER,
                                 NoTracing, ResumedTracing, StateSpaceContext, StateSpace,
@@ -82,7 +82,7 @@ def explore(cond, budget, per_path_timeout=None, max_samples=3, seed=0):
 
     res = {
         'id': cond.id, 'status': 'UNKNOWN', 'paths': 0, 'ok_paths': 0, 'ignored_paths': 0,
-        'unknown_paths': 0, 'reason': '', 'tags': {}, 'samples': [], 'cex': None,
+        'unknown_paths': 0, 'reason': '', 'tags': {}, 'samples': [], 'cex': None, 'cexs': [],
     }
     tags = collections.Counter()
     start = process_time()
@@ -130,8 +130,10 @@ def explore(cond, budget, per_path_timeout=None, max_samples=3, seed=0):
                 path_tags = h._take_path_tags()
                 if failing is not None:
                     concrete = deep_realize(pre_args)
-                    res['cex'] = {'args': dict(concrete.arguments), 'verdict': failing[0],
-                                  'detail': failing[1], 'where': failing[2]}
+                    res['cexs'].append({'args': dict(concrete.arguments), 'verdict': failing[0],
+                                        'detail': failing[1], 'where': failing[2]})
+                    if res['cex'] is None:
+                        res['cex'] = res['cexs'][0]
                     status = VerificationStatus.REFUTED
                 else:
                     res['ok_paths'] += 1
@@ -158,8 +160,11 @@ def explore(cond, budget, per_path_timeout=None, max_samples=3, seed=0):
             top, exhausted = space.bubble_status(CallAnalysis(status))
             top_status = top.verification_status if top is not None else None
         if failing is not None:
+            # Keep exploring for a few more failing paths: when process-global state leaks from one
+            # path to the next, the first failing input may not fail in isolation while a later one does.
             res['status'] = 'REFUTED'
-            break
+            if len(res['cexs']) >= max_cex or process_time() > start + min(budget, 60):
+                break
         if exhausted:
             break
 
